@@ -1588,8 +1588,8 @@ class Unit:
         for it in range(40):
             finals = []
 
-            def collect(be, st, header=header, finals=finals):
-                if be[1] == header:
+            def collect(be, st, header=header, finals=finals, frame=(n[4] if len(n) > 4 else None)):
+                if be[1] == header and (frame is None or len(be) < 5 or be[4] == frame):
                     finals.append((be[3], st.copy()))
             st = base.copy()
             for l, (pre, var) in lv.items():
